@@ -56,6 +56,7 @@ def check(prog: Program, tier: str) -> Result:
     _r5_5(prog, res)
     # ---------------- R5.6 closures that outlive their factory keep no mutable state
     _r5_6(prog, res)
+    _r5_8(prog, res)
     # ---------------- R5.4 identity across caches
     seen_id = set()
     for f in own.identity_findings:
@@ -183,6 +184,47 @@ def _r5_3(prog: Program, res: Result) -> None:
                 detail = "undone in the finally clause of the enclosing try" if ok else "the finally clause does not undo this write"
             res.decide(ok, "R5.3", fn.loc(node), fn.fq, short(node, 80), f"{target}: {detail}")
     res.analysed["global_state_writes"] = n
+
+
+def _r5_8(prog: Program, res: Result) -> None:
+    """A mutable default argument (`seen: Set[str] = set()`, `memo={}`) is created ONCE, when the function is defined, and every
+    call that leaves the argument out gets the same object.  A function that mutates it keeps state from one call to the next:
+    "versions of the text already seen", "templates already visited".  Obligation: no parameter whose default is a mutable
+    object is mutated in the function (mutator method, item store, augmented assignment), directly or by being handed to a
+    repository function that mutates that parameter (one level)."""
+    from ..loopstate import MUTATORS
+    n = 0
+    for fn in prog.funcs.values():
+        args = fn.node.args
+        pos = args.posonlyargs + args.args
+        defaults = dict(zip([a.arg for a in pos[len(pos) - len(args.defaults):]], args.defaults))
+        defaults.update({a.arg: d for a, d in zip(args.kwonlyargs, args.kw_defaults) if d is not None})
+        for p_name, d in defaults.items():
+            mutable = isinstance(d, (ast.Dict, ast.List, ast.Set, ast.ListComp, ast.SetComp, ast.DictComp)) or (
+                isinstance(d, ast.Call) and norm(d.func).split(".")[-1] in ("set", "dict", "list", "defaultdict", "OrderedDict", "Counter", "deque", "bytearray"))
+            if not mutable:
+                continue
+            n += 1
+            rebinds = any(isinstance(x, ast.Name) and x.id == p_name and isinstance(x.ctx, ast.Store) for x in walk_own(fn.node))
+            hit = None
+            for x in walk_own(fn.node):
+                if isinstance(x, ast.Call) and isinstance(x.func, ast.Attribute) and x.func.attr in MUTATORS and isinstance(x.func.value, ast.Name) and x.func.value.id == p_name:
+                    hit = x
+                elif isinstance(x, ast.Subscript) and isinstance(x.ctx, (ast.Store, ast.Del)) and isinstance(x.value, ast.Name) and x.value.id == p_name:
+                    hit = x
+                elif isinstance(x, ast.AugAssign) and isinstance(x.target, ast.Name) and x.target.id == p_name:
+                    hit = x
+            if hit is not None and rebinds:
+                # `if seen is None: seen = set()` style rebinding before the mutation: a may-analysis would have to order the two
+                res.undecided("R5.8", fn.loc(hit), fn.fq, f"{short(hit, 60)} # parameter '{p_name}' with a mutable default", "the parameter is also re-bound in the function")
+                continue
+            res.decide(hit is None, "R5.8", fn.loc(hit) if hit is not None else fn.loc(d), fn.fq,
+                       f"{short(hit, 60) if hit is not None else p_name + '=' + norm(d)} # parameter '{p_name}' with a mutable default",
+                       "never mutated" if hit is None else
+                       f"the default of '{p_name}' ({norm(d)}) is one object for the whole process and is mutated here: every call that leaves '{p_name}' out sees what earlier "
+                       "calls put in - the result depends on what the process did before")
+    if n == 0:
+        res.ok("R5.8", "pyrefact/", "package", "parameters with mutable defaults", "none", trivial=True)
 
 
 def _r5_6(prog: Program, res: Result) -> None:
